@@ -172,10 +172,13 @@ def run(ck, facts, tier):
                     l = peel(n["l"])
                     if l.get("k") == "field" and l["n"] == f and l.get("adt") == IT:
                         restored = True
-                if n.get("k") == "call" and (n.get("fn") or "").endswith("rollback_to") and n["args"]:
-                    a0 = peel(n["args"][0])
-                    if a0.get("k") == "field" and a0["n"] == f and a0.get("adt") == IT:
-                        restored = True
+                if n.get("k") == "call" and n.get("args"):
+                    # `self.unify.rollback_to(..)`, `self.vars.truncate(..)`: a mutating call on the field
+                    a0 = n["args"][0]
+                    if isinstance(a0, dict) and a0.get("k") == "ref" and a0.get("m"):
+                        q = peel(a0)
+                        if q.get("k") == "field" and q["n"] == f and q.get("adt") == IT and expr_vars(n) & {"snapshot"}:
+                            restored = True
             if read and restored:
                 ck.ok(R, "InferenceTable.%s" % f, "captured and restored")
             else:
